@@ -122,6 +122,11 @@ Theorem tie_evict_metrics :
   metric_field fn_shardedMap_evictMostExpired = Some "i.E" /\ metric_field fn_shardedMap_evictLeastCounter = Some "i.C".
 Proof. split; reflexivity. Qed.
 
+Theorem tie_evict_metrics_all :
+  metric_field fn_shardedMapOf_evictMostExpired = Some "i.E" /\ metric_field fn_shardedMapOf_evictLeastCounter = Some "i.C" /\
+  metric_field fn_syncMap_evictMostExpired = Some "i.E" /\ metric_field fn_syncMap_evictLeastCounter = Some "i.C".
+Proof. repeat split; reflexivity. Qed.
+
 (* ---- which eviction function a backend installs: evictMostExpired, unless the strategy is not EvictMostExpired,
    then evictLeastCounter (whose metric is the usage counter PrepareRead maintains: last-served stamp for LRU, serve
    count for LFU) ---- *)
